@@ -81,6 +81,12 @@ type tcase struct {
 	srcs []source
 	prog []string
 	each bool // validate everything after each step (otherwise only at the end)
+	// o=p: the language is too large to enumerate (numWords up to 2^63-1 on a few dozen nodes):
+	// observe counts and the ranks of the probe words only
+	probe bool
+	// c=<k>: how the word sets are turned into automata (construction.go): 0 dawg.New, 1 a
+	// zero-value Builder, 2 a Builder with a past that is initialised again, 3 with rejected Adds
+	cons int
 }
 
 // plain: one source, no program (the shape of every case before the history cases existed)
@@ -92,6 +98,12 @@ func (c tcase) line() string {
 		ps[i] = hexWord(p)
 	}
 	head := fmt.Sprintf("b=%02x,s=%s", c.blank, strings.Join(ps, "."))
+	if c.probe {
+		head += ",o=p"
+	}
+	if c.cons != 0 {
+		head += fmt.Sprintf(",c=%d", c.cons)
+	}
 	if c.n == 0 && len(c.srcs) == 0 {
 		tk := make([]string, len(c.tokens))
 		for i, w := range c.tokens {
@@ -161,6 +173,10 @@ func parse(line string) tcase {
 			}
 		case "v":
 			c.each = v == "e"
+		case "o":
+			c.probe = v == "p"
+		case "c":
+			c.cons, _ = strconv.Atoi(v)
 		}
 	}
 	if c.n < 1 {
@@ -244,8 +260,25 @@ func wfString(d *dawg.Dawg) string {
 	return "ok"
 }
 
-// observe prints what the property determines about an automaton.
-func observe(d *dawg.Dawg, blank byte, pats [][]byte) string {
+// probeString: Lookup of every pattern taken literally as a word (present or absent).
+func probeString(d *dawg.Dawg, pats [][]byte) string {
+	pr := make([]string, len(pats))
+	for i, p := range pats {
+		if r, ok := d.Lookup(p); ok {
+			pr[i] = hexWord(p) + ":" + strconv.Itoa(r)
+		} else {
+			pr[i] = hexWord(p) + ":-"
+		}
+	}
+	return clip(strings.Join(pr, ","))
+}
+
+// obs prints what the property determines about an automaton.
+func (c tcase) obs(d *dawg.Dawg) string {
+	if c.probe {
+		return fmt.Sprintf("nw=%d nodes=%d probes=%s", d.NumberOfWords(), d.VerifNodeCount(), probeString(d, c.pats))
+	}
+	blank, pats := c.blank, c.pats
 	words, _ := d.Search()
 	ws := make([]string, len(words))
 	rk := make([]string, len(words))
@@ -266,13 +299,13 @@ func observe(d *dawg.Dawg, blank byte, pats [][]byte) string {
 		}
 		sr[i] = hexWord(p) + "=" + strings.Join(hits, ",")
 	}
-	return fmt.Sprintf("words=%s ranks=%s nw=%d nodes=%d search=%s", clip(strings.Join(ws, ",")), clip(strings.Join(rk, ",")),
-		d.NumberOfWords(), d.VerifNodeCount(), clip(strings.Join(sr, ";")))
+	return fmt.Sprintf("words=%s ranks=%s nw=%d nodes=%d search=%s probes=%s", clip(strings.Join(ws, ",")), clip(strings.Join(rk, ",")),
+		d.NumberOfWords(), d.VerifNodeCount(), clip(strings.Join(sr, ";")), probeString(d, pats))
 }
 
 // makeSource builds the automaton of a source: dawg.New of the word set, or GobDecode of the
 // foreign stream into a fresh Dawg.  what = "build-error" / "src-decode-error" on failure.
-func makeSource(sc source) (d *dawg.Dawg, what string) {
+func makeSource(sc source, cons int) (d *dawg.Dawg, what string) {
 	if sc.stream != nil {
 		d = new(dawg.Dawg)
 		if err := decodeScribble(d, sc.stream, 0); err != nil {
@@ -280,7 +313,7 @@ func makeSource(sc source) (d *dawg.Dawg, what string) {
 		}
 		return d, ""
 	}
-	d, err := dawg.New(sc.words)
+	d, err := buildWords(sc.words, cons)
 	if err != nil || d == nil {
 		return nil, "build-error"
 	}
@@ -296,13 +329,21 @@ func roundTrip(c tcase, sc source, wf string, b []byte) (proj, strict string, vi
 	if err := decodeScribble(d2, b, 1); err != nil {
 		return "decode-error", strict, []hx.OracleViolation{hx.Fail("C14:decode-error", "GobDecode rejects the output of GobEncode: %v", err)}
 	}
-	dec := observe(d2, c.blank, c.pats)
+	// the decoded automaton is encoded before anything else is asked of it in every second
+	// case, and after it has been searched in the others
+	var dec string
+	if len(b)%2 == 0 {
+		dec = c.obs(d2)
+	}
 	reenc := "same"
 	b2, err := d2.GobEncode()
 	if err != nil {
 		reenc = "error"
 	} else if !bytes.Equal(b2, b) {
 		reenc = "DIFFERENT"
+	}
+	if len(b)%2 != 0 {
+		dec = c.obs(d2)
 	}
 	if reenc != "same" {
 		viol = append(viol, hx.Fail("C14:reencode-differs", "encoding the decoded automaton: %s", reenc))
@@ -325,18 +366,27 @@ func Exec(line string) hx.Result {
 	}
 	sc := c.srcs[0]
 	var viol []hx.OracleViolation
-	d, what := makeSource(sc)
+	d, what := makeSource(sc, c.cons)
 	if d == nil {
 		if sc.stream != nil {
 			viol = append(viol, hx.Fail("C14:foreign-decode-error", "GobDecode rejects a stream in the shape GobEncode writes (another id numbering)"))
 		}
 		return hx.Result{Obs: what, Viol: viol}
 	}
-	orig := observe(d, c.blank, c.pats)
-	origDump := dumpString(d)
+	// what d should look like is taken from a twin built the same way, so that d itself is
+	// encoded before any Search / Lookup has been called on it (and searched later, below)
+	twin, _ := makeSource(sc, c.cons)
+	if twin == nil {
+		return hx.Result{Obs: what}
+	}
+	orig := c.obs(twin)
+	origDump := dumpString(twin)
 	b, err := d.GobEncode()
 	if err != nil {
 		return hx.Result{Obs: "encode-error"}
+	}
+	if o := c.obs(d); o != orig {
+		viol = append(viol, hx.Fail("C14:twin-differs", "two automata built the same way differ, or GobEncode changed the one it was called on: %s / %s", short(orig, 300), short(o, 300)))
 	}
 	if b1, err1 := d.GobEncode(); err1 != nil || !bytes.Equal(b1, b) {
 		viol = append(viol, hx.Fail("C14:encode-not-deterministic", "two calls of GobEncode on the same automaton gave different results"))
@@ -352,7 +402,7 @@ func Exec(line string) hx.Result {
 		return hx.Result{Obs: proj + " ## " + strict, Viol: viol}
 	}
 	dHeld := mustDecode(b) // a decoded automaton kept until the end of the case
-	if dec := observe(dHeld, c.blank, c.pats); dec != orig {
+	if dec := c.obs(dHeld); dec != orig {
 		viol = append(viol, hx.Fail("C14:roundtrip-differs", "decoded automaton differs from the original: original %s decoded %s", short(orig, 300), short(dec, 300)))
 	}
 	// through encoding/gob
@@ -368,7 +418,7 @@ func Exec(line string) hx.Result {
 		if err := gob.NewDecoder(bytes.NewReader(framed)).Decode(&d3); err != nil {
 			viol = append(viol, hx.Fail("C14:gob-decode-error", "gob Decode: %v", err))
 		} else {
-			if o3 := observe(&d3, c.blank, c.pats); o3 != orig {
+			if o3 := c.obs(&d3); o3 != orig {
 				viol = append(viol, hx.Fail("C14:gob-roundtrip-differs", "automaton decoded through encoding/gob differs from the original: original %s decoded %s", short(orig, 300), short(o3, 300)))
 			}
 			var buf3 bytes.Buffer
@@ -382,7 +432,7 @@ func Exec(line string) hx.Result {
 	if err4 == nil {
 		if err := decodeScribble(d4, b, 2); err != nil {
 			viol = append(viol, hx.Fail("C14:decode-error-used-receiver", "GobDecode into a used receiver: %v", err))
-		} else if o4 := observe(d4, c.blank, c.pats); o4 != orig {
+		} else if o4 := c.obs(d4); o4 != orig {
 			viol = append(viol, hx.Fail("C14:used-receiver-differs", "decoding into a used receiver: original %s decoded %s", short(orig, 300), short(o4, 300)))
 		} else if b4, err := d4.GobEncode(); err != nil || !bytes.Equal(b4, b) {
 			viol = append(viol, hx.Fail("C14:used-receiver-reencode-differs", "encoding the automaton decoded into a used receiver gives different bytes"))
@@ -397,7 +447,7 @@ func Exec(line string) hx.Result {
 			viol = append(viol, hx.Fail("C14:encode-error", "GobEncode: %v", err))
 		} else if err := decodeScribble(d5, b, 3); err != nil {
 			viol = append(viol, hx.Fail("C14:decode-error-used-receiver", "GobDecode into a receiver that was encoded before: %v", err))
-		} else if o5 := observe(d5, c.blank, c.pats); o5 != orig {
+		} else if o5 := c.obs(d5); o5 != orig {
 			viol = append(viol, hx.Fail("C14:used-receiver-differs", "decoding into a receiver that was encoded before: original %s decoded %s", short(orig, 300), short(o5, 300)))
 		} else if b6, err := d5.GobEncode(); err != nil || !bytes.Equal(b6, b) {
 			viol = append(viol, hx.Fail("C14:encoded-receiver-reencode-differs", "GobEncode, GobDecode of another automaton into the same Dawg, GobEncode: the second encoding is not that of the new contents"))
@@ -405,16 +455,40 @@ func Exec(line string) hx.Result {
 			viol = append(viol, hx.Fail("C14:encoding-overwritten", "a []byte returned by GobEncode changed during later calls"))
 		}
 	}
+	// one buffer passed to two GobDecode calls on two Dawgs, then overwritten
+	{
+		buf := append([]byte{}, b...)
+		dA, dB := new(dawg.Dawg), new(dawg.Dawg)
+		errA := dA.GobDecode(buf)
+		errB := dB.GobDecode(buf)
+		scribble(buf, len(b)+1)
+		if errA != nil || errB != nil {
+			viol = append(viol, hx.Fail("C14:decode-error-same-buffer", "decoding one buffer into two Dawgs: %v / %v", errA, errB))
+		} else if oA, oB := c.obs(dA), c.obs(dB); oA != orig || oB != orig {
+			viol = append(viol, hx.Fail("C14:same-buffer-differs", "two Dawgs decoded from the same buffer: original %s first %s second %s", short(orig, 200), short(oA, 200), short(oB, 200)))
+		}
+	}
 	// the first result of GobEncode, held all along, is still the encoding of d; the automaton
 	// decoded first and the original still behave as at the start
 	if !bytes.Equal(bHeld, b) {
 		viol = append(viol, hx.Fail("C14:encoding-overwritten", "the []byte returned by GobEncode changed during later GobEncode/GobDecode calls on other automata"))
 	}
-	if o := observe(dHeld, c.blank, c.pats); o != orig {
+	if o := c.obs(dHeld); o != orig {
 		viol = append(viol, hx.Fail("C14:decoded-overwritten", "an automaton returned by GobDecode changed during later GobEncode/GobDecode calls on other automata: at first %s now %s", short(orig, 300), short(o, 300)))
 	}
-	if o := observe(d, c.blank, c.pats); o != orig || dumpString(d) != origDump {
+	if o := c.obs(d); o != orig || dumpString(d) != origDump {
 		viol = append(viol, hx.Fail("C14:encode-modifies", "the original automaton changed during the GobEncode/GobDecode calls of the case"))
+	}
+	// the caller owns what GobEncode returned: after it has overwritten every slice it was given,
+	// the automata still encode to the same bytes
+	scribble(bHeld, len(b))
+	for i, x := range []*dawg.Dawg{d, dHeld, twin} {
+		if bx, err := x.GobEncode(); err != nil || !bytes.Equal(bx, b) {
+			viol = append(viol, hx.Fail("C14:encode-after-scribble", "GobEncode after the caller overwrote the slices returned by earlier GobEncode calls gives other bytes (automaton %d of original/decoded/twin)", i))
+			break
+		} else {
+			scribble(bx, i)
+		}
 	}
 	obs := proj + " ## " + strict
 
@@ -423,7 +497,9 @@ func Exec(line string) hx.Result {
 	kind := "plain"
 	dump := d.VerifDump()
 	if sc.stream != nil {
-		words, _ = d.Search()
+		if !c.probe {
+			words, _ = d.Search()
+		}
 		kind = "foreign-dfs-ids"
 		var last uint64
 		for i, n := range dump {
@@ -434,6 +510,13 @@ func Exec(line string) hx.Result {
 		}
 	}
 	nontrivial, _ := sharing(words, len(dump))
+	if c.probe {
+		nontrivial = d.NumberOfWords() > len(dump)
+		kind = "foreign-huge-language"
+	}
+	if c.cons != 0 {
+		kind += "-cons" + strconv.Itoa(c.cons%nCons)
+	}
 	maxBranch, maxID := 0, uint64(0)
 	for _, n := range dump {
 		if len(n.Labels) > maxBranch {
@@ -589,7 +672,18 @@ func allWords(alpha []byte, n int) [][]byte {
 }
 
 func randAlphabet(r *hx.Rng) []byte {
-	switch r.Intn(6) {
+	switch r.Intn(7) {
+	case 6: // bytes congruent modulo 32 / 64 / 128
+		m := []int{32, 64, 128}[r.Intn(3)]
+		var a []byte
+		for x := r.Intn(m); x < 256; x += m {
+			a = append(a, byte(x))
+		}
+		if len(a) < 2 {
+			a = append(a, a[0]^0x01)
+			sort.Slice(a, func(i, j int) bool { return a[i] < a[j] })
+		}
+		return a
 	case 0:
 		return []byte("a")
 	case 1:
@@ -890,6 +984,102 @@ func Gen(g *hx.Gen) {
 	}
 	genForeign(g)
 	genHistory(g)
+	genHarden(g)
+}
+
+// genHarden: the dimensions of notes/GENERATOR_DIMENSIONS.md that the streams above do not visit
+// deliberately: sizes just below / at / above 8..1024 (depth, width, word count, node count),
+// lopsided shapes, every boundary of the integer encoding in every field kind (ids, numWords,
+// ranks), label bytes congruent modulo 32/64/128, and the other ways of building a Dawg.
+func genHarden(g *hx.Gen) {
+	r := g.Rng
+	nth := 0
+	// every set goes out as built by one of the constructions (rotating) and as a foreign stream
+	emit := func(ws [][]byte) {
+		blank := pickBlank(r)
+		pats := patterns(r, ws, blank)
+		nth++
+		g.Emit(tcase{blank: blank, pats: pats, tokens: ws, cons: nth % nCons}.line())
+		// (the model's traversal is quadratic in the node count: large ones as foreign streams in
+		// the thorough tier only)
+		if _, npre := sharing(ws, 0); npre <= g.Pick(300, 1100) {
+			g.Emit(tcase{blank: blank, pats: pats, srcs: []source{{stream: foreignStream(r, ws, 1, r.Intn(nOrders), r.Intn(nVals))}}}.line())
+		}
+	}
+	for _, t := range []int{8, 16, 32, 64, 128, 256, 512, 1024} {
+		for d := -2; d <= 1; d++ {
+			if t >= 512 && d != 0 && !g.Thorough() {
+				continue
+			}
+			emit(chain(r, t+d, false)) // depth t+d, t+d+1 nodes
+			if d >= -1 {
+				emit(manyWords([]byte("abcd"), 6, t+d)) // word count
+				if t+d <= 256 {
+					emit(wide(r, t+d, 20000)) // width
+				}
+			}
+		}
+	}
+	// lopsided: one deep branch first / in the middle / last among k short siblings
+	for _, depth := range []int{63, 64, 65, 128, 256} {
+		for _, k := range []int{3, 16, 255} {
+			if k == 255 && depth != 64 && !g.Thorough() {
+				continue
+			}
+			letters := byteSubset(r, k)
+			for _, pos := range []int{0, k / 2, k - 1} {
+				var ws [][]byte
+				for i, c := range letters {
+					ws = append(ws, []byte{c})
+					if i == pos {
+						ws = append(ws, cat([]byte{c}, chain(r, depth-1, false)[0]))
+					}
+				}
+				emit(sortDedup(ws))
+			}
+		}
+	}
+	// the constructions on structured random sets
+	for i, n := 0, g.Pick(240, 6000); i < n; i++ {
+		ws := wordSet(r, randAlphabet(r))
+		blank := pickBlank(r)
+		g.Emit(tcase{blank: blank, pats: patterns(r, ws, blank), tokens: ws, cons: 1 + i%(nCons-1)}.line())
+	}
+	// ids on every boundary of the integer encoding, in every id order
+	ladder := varintLadder()
+	for i, n := 0, g.Pick(3, 40); i < n; i++ {
+		for ord := 0; ord < nOrders; ord++ {
+			var ws [][]byte
+			switch (i + ord) % 3 {
+			case 0:
+				ws = chain(r, r.Range(len(ladder)-12, len(ladder)-1), r.Bool())
+			case 1:
+				ws = wide(r, r.Range(20, len(ladder)-8), 20000)
+			default:
+				ws = wordSet(r, randAlphabet(r))
+			}
+			k := minimalSize(ws)
+			if k > len(ladder) {
+				continue
+			}
+			ids := ladder
+			if k < len(ladder) && r.Bool() {
+				ids = ladder[len(ladder)-k:] // the largest ones
+			}
+			blank := pickBlank(r)
+			g.Emit(tcase{blank: blank, pats: patterns(r, ws, blank), srcs: []source{{stream: streamWithIDs(r, ws, ids, ord)}}}.line())
+		}
+	}
+	// numWords (and ranks) on every boundary up to 2^63-1: huge languages on few nodes, probes only
+	for i, n := 0, g.Pick(1, 20); i < n; i++ {
+		for finals := 0; finals < 3; finals++ {
+			for ord := 0; ord < nOrders; ord++ {
+				order, probes := powerLanguage(r, finals, (i+ord)%2 == 1)
+				stream := numberAndWrite(r, order, ord, r.Intn(nVals))
+				g.Emit(tcase{blank: '?', pats: probes, probe: true, srcs: []source{{stream: stream}}}.line())
+			}
+		}
+	}
 }
 
 func pickBlank(r *hx.Rng) byte {
@@ -987,7 +1177,11 @@ func genHistory(g *hx.Gen) {
 		}
 		all = sortDedup(append([][]byte{}, all...))
 		blank := pickBlank(r)
-		g.Emit(tcase{blank: blank, pats: patterns(r, all, blank), srcs: srcs, prog: prog, each: each}.line())
+		cons := 0
+		if r.Chance(1, 3) {
+			cons = r.Intn(nCons)
+		}
+		g.Emit(tcase{blank: blank, pats: patterns(r, all, blank), srcs: srcs, prog: prog, each: each, cons: cons}.line())
 	}
 	// exhaustive: every ordered pair of subsets of {"", a, b, ab}: both encodings held; and
 	// encode A, decode B's encoding into A, encode A again
